@@ -147,7 +147,16 @@ int main(int argc, char ** argv)
    if (args.kv.count("config")) jobs.push_back(std::make_pair(args.kv["config"], opt.bound));
    else {
       const char * variants[] = {"resubmit", "basic", "shutdown", "threeclients", "unregshutdown"};
-      for (int t = 1; t <= 2; t++) for (size_t v = 0; v < 5; v++) { Config c; c.threads = t; c.variant = variants[v]; jobs.push_back(std::make_pair(ConfigToString(c), (t == 1) ? (args.Thorough() ? 4 : 3) : (args.Thorough() ? 3 : 2))); }
+      for (int t = 1; t <= 2; t++) for (size_t v = 0; v < 5; v++) { Config c; c.threads = t; c.variant = variants[v]; jobs.push_back(std::make_pair(ConfigToString(c), (t == 1) ? 3 : 2)); }
+   }
+   // thorough tier = the quick tier's jobs (run to completion first) + the same configurations with one more preemption, cheapest first, each with a fair
+   // share of the remaining time (one expensive configuration must not keep the others from running at all)
+   std::vector<std::pair<std::string, int> > deeper;
+   if (args.Thorough() && !args.kv.count("config")) {
+      const char * order1[] = {"resubmit", "threeclients", "unregshutdown", "basic", "shutdown"};
+      for (size_t v = 0; v < 5; v++) { Config c; c.threads = 1; c.variant = order1[v]; deeper.push_back(std::make_pair(ConfigToString(c), 4)); }
+      const char * order2[] = {"resubmit", "unregshutdown", "threeclients", "shutdown", "basic"};
+      for (size_t v = 0; v < 5; v++) { Config c; c.threads = 2; c.variant = order2[v]; deeper.push_back(std::make_pair(ConfigToString(c), 3)); }
    }
    if (args.kv.count("freerun")) {
       std::vector<std::string> cs; std::set<std::string> seen; for (size_t i = 0; i < jobs.size(); i++) if (jobs[i].first.find("unregshutdown") == std::string::npos && seen.insert(jobs[i].first).second) cs.push_back(jobs[i].first);   // (unregshutdown only under the scheduler: Shutdown() clears IThreadPoolClient::_threadPool under the pool lock while SetThreadPool() reads it unlocked)
@@ -156,21 +165,28 @@ int main(int argc, char ** argv)
    }
    const double deadline = args.t0 + args.deadline * 0.92;
    schedx::StartPool(Factory(), opt, args.workers);
-   verif::Part total; total.name = "threadpool"; unsigned long execs = 0; bool capped = false; int maxBoundDone = 0;
-   for (size_t i = 0; i < jobs.size(); i++) {
-      if (verif::NowS() > deadline) { capped = true; break; }
-      schedx::Options o2 = opt; o2.bound = jobs[i].second;
-      schedx::Explore("threadpool", jobs[i].first, o2, args, res, deadline);
-      verif::Part p = res.parts.back(); res.parts.pop_back();
-      total.states += p.states; total.transitions += p.transitions; total.evaluations += p.evaluations; total.distinct_outcomes += p.distinct_outcomes; execs += p.transitions; if (!p.exhaustive) { capped = true; total.cap = p.cap + " in " + jobs[i].first; }
-      if (total.samples.size() < 3 && !p.samples.empty()) total.samples.push_back(p.samples[(size_t)args.seed % p.samples.size()]);
-      total.extra[jobs[i].first + verif::Fmt(";bound=%d", jobs[i].second)] = verif::Fmt("{\"executions\": %llu, \"distinct_outcomes\": %llu, \"by_cost\": %s, \"max_points\": %s, \"exhaustive\": %s}", (unsigned long long)p.transitions, (unsigned long long)p.distinct_outcomes, p.extra["executions_by_cost"].c_str(), p.extra["max_points_in_one_execution"].c_str(), p.exhaustive ? "true" : "false");
-      if (p.exhaustive && jobs[i].second > maxBoundDone) maxBoundDone = jobs[i].second;
+   unsigned long execs = 0;
+   const std::string ruleText = "every interleaving within the stated preemption bound (per configuration, see extra) of {1,2 pool threads} x {one client re-submitting and re-registering; two clients with two submitter threads then unregister; the same followed by pool shutdown with work in flight; three clients; one thread unregistering a client while another shuts the pool down} on a real muscle::ThreadPool under a scheduler owning every pool-lock, wait-condition, thread spawn/exit/join and internal-thread wake-up point; one schedule = one execution of the real code";
+   for (int pass = 0; pass < 2; pass++) {
+      const std::vector<std::pair<std::string, int> > & J = pass ? deeper : jobs; if (J.empty()) continue;
+      verif::Part total; total.name = pass ? "threadpool-one-more-preemption" : "threadpool"; bool capped = false; int maxBoundDone = 0;
+      for (size_t i = 0; i < J.size(); i++) {
+         const double nowT = verif::NowS();
+         if (nowT > deadline) { capped = true; if (total.cap.empty()) total.cap = "deadline before " + J[i].first; break; }
+         const double jobDeadline = pass ? std::min(deadline, nowT + std::max(60.0, (deadline - nowT) / (double)(J.size() - i))) : deadline;
+         schedx::Options o2 = opt; o2.bound = J[i].second;
+         schedx::Explore("threadpool", J[i].first, o2, args, res, jobDeadline);
+         verif::Part p = res.parts.back(); res.parts.pop_back();
+         total.states += p.states; total.transitions += p.transitions; total.evaluations += p.evaluations; total.distinct_outcomes += p.distinct_outcomes; execs += p.transitions; if (!p.exhaustive) { capped = true; total.cap += (total.cap.empty() ? "" : "; ") + p.cap + " in " + J[i].first; }
+         if (total.samples.size() < 3 && !p.samples.empty()) total.samples.push_back(p.samples[(size_t)args.seed % p.samples.size()]);
+         total.extra[J[i].first + verif::Fmt(";bound=%d", J[i].second)] = verif::Fmt("{\"executions\": %llu, \"distinct_outcomes\": %llu, \"by_cost\": %s, \"max_points\": %s, \"exhaustive\": %s}", (unsigned long long)p.transitions, (unsigned long long)p.distinct_outcomes, p.extra["executions_by_cost"].c_str(), p.extra["max_points_in_one_execution"].c_str(), p.exhaustive ? "true" : "false");
+         if (p.exhaustive && J[i].second > maxBoundDone) maxBoundDone = J[i].second;
+      }
+      total.exhaustive = !capped; total.bound_completed = capped ? -1 : maxBoundDone; if (capped && total.cap.empty()) total.cap = "deadline";
+      total.rule = ruleText + (pass ? "; this part: the configurations of part 'threadpool' with ONE MORE preemption (1 pool thread: <=4, 2 pool threads: <=3), cheapest first, each with a fair share of the remaining time; a configuration cut by its share is listed in cap and marked exhaustive:false in extra" : "; this part: 1 pool thread <=3 preemptions, 2 pool threads <=2 (the quick tier's space, always run to completion first)");
+      res.parts.push_back(total);
    }
    schedx::StopPool();
-   total.exhaustive = !capped; total.bound_completed = capped ? -1 : maxBoundDone; if (capped && total.cap.empty()) total.cap = "deadline";
-   total.rule = "every interleaving within the stated preemption bound (per configuration, see extra) of {1,2 pool threads} x {one client re-submitting and re-registering; two clients with two submitter threads then unregister; the same followed by pool shutdown with work in flight; three clients; one thread unregistering a client while another shuts the pool down} on a real muscle::ThreadPool under a scheduler owning the pool lock, every pool thread's queue lock, signalling socket send/wait, spawn/exit/join and the unregister WaitCondition; handlers yield once while inside; distinct = distinct (status, per-client handling order, number of pool threads used)";
-   res.parts.push_back(total);
-   fprintf(stderr, "C19: jobs=%u executions=%lu capped=%d violations=%u wall=%.1fs\n", (unsigned)jobs.size(), execs, (int)capped, (unsigned)res.violations.size(), verif::NowS() - args.t0);
+   fprintf(stderr, "C19: jobs=%u+%u executions=%lu violations=%u wall=%.1fs\n", (unsigned)jobs.size(), (unsigned)deeper.size(), execs, (unsigned)res.violations.size(), verif::NowS() - args.t0);
    return res.Write(args);
 }
